@@ -1,5 +1,121 @@
 import Rivaas.Proto
-/- Driver for C20 (stub: not built yet) -/
-def main : IO UInt32 := do
-  IO.eprintln "driver for C20 is not built yet"
-  return 2
+import Rivaas.Spec.Log
+/-
+Driver for C20.
+
+Redaction case:
+  <id> R <j|t|c> <buffered> <user> <root: n attr…> <chain: n op…> <call: n attr…> <cores: n str…>
+       => O <pairs: n (<path: n str…> <value>)…> <occ: n bool…> | P
+  attr ::= L <key> <value> | G <key> <n> attr…
+  op   ::= W <n> attr… | Q <name>
+  user ::= N | T <key> | A <key>
+-/
+namespace Rivaas.DriverC20
+open Rivaas.Proto Rivaas.Log
+
+/-- attribute trees are nested: parse with fuel (the number of tokens bounds the depth) -/
+def pAttr : Nat → P Attr
+  | 0 => failure
+  | fuel+1 => do
+    let k ← tok
+    if k == "L" then
+      let key ← str
+      let v ← str
+      pure (.leaf key v)
+    else if k == "G" then
+      let key ← str
+      let as ← list (pAttr fuel)
+      pure (.group key as)
+    else failure
+
+def pOp (fuel : Nat) : P ChainOp := do
+  let k ← tok
+  if k == "W" then ChainOp.withAttrs <$> list (pAttr fuel)
+  else if k == "Q" then ChainOp.withGroup <$> str
+  else failure
+
+def pUser : P UserRep := do
+  let k ← tok
+  if k == "N" then pure .none
+  else if k == "T" then UserRep.dropTop <$> str
+  else if k == "A" then UserRep.dropAny <$> str
+  else failure
+
+def pHType : P HType := do
+  let k ← tok
+  if k == "j" then pure .json else if k == "t" then pure .text else if k == "c" then pure .console else failure
+
+structure RCase where
+  c : Case
+  cores : List Bytes
+
+def pRCase (fuel : Nat) : P RCase := do
+  let h ← pHType
+  let b ← bool
+  let u ← pUser
+  let root ← list (pAttr fuel)
+  let chain ← list (pOp fuel)
+  let call ← list (pAttr fuel)
+  let cores ← list str
+  pure { c := { h := h, user := u, root := root, chain := chain, call := call, buffered := b }, cores := cores }
+
+def pPair : P Pair := do
+  let path ← list str
+  let v ← str
+  pure (path, v)
+
+/-- `O pairs occ` or `P` (the log call panicked) -/
+def pRObs : P (Option (List Pair × List Bool)) := do
+  let k ← tok
+  if k == "O" then
+    let ps ← list pPair
+    let occ ← list bool
+    pure (some (ps, occ))
+  else if k == "P" then pure none
+  else failure
+
+def isPrefix : Bytes → Bytes → Bool
+  | [], _ => true
+  | _ :: _, [] => false
+  | a :: as, b :: bs => a == b && isPrefix as bs
+
+def isInfix (needle : Bytes) : Bytes → Bool
+  | [] => needle.isEmpty
+  | hay@(_ :: rest) => isPrefix needle hay || isInfix needle rest
+
+/-- does the core of each input attribute occur in some value the model prints -/
+def modelOcc (cores : List Bytes) (out : List Pair) : List Bool :=
+  cores.map fun core => out.any fun p => isInfix core p.2
+
+def encPairs (ps : List Pair) : String :=
+  toString ps.length ++ String.join (ps.map fun p =>
+    " " ++ toString p.1.length ++ String.join (p.1.map fun k => " " ++ encStr k) ++ " " ++ encStr p.2)
+
+def encBools (bs : List Bool) : String :=
+  toString bs.length ++ String.join (bs.map fun b => if b then " 1" else " 0")
+
+def stepR (id : String) (inp obs : List String) : String :=
+  match runP (pRCase inp.length) inp, runP pRObs obs with
+  | some rc, some o =>
+    let m := emitK20d rc.c
+    let mocc := modelOcc rc.cores m
+    let mi := match o with
+      | some (ps, occ) => ps == m && occ == mocc
+      | none => false
+    let s := match o with
+      | some (ps, occ) => specOK rc.c ps occ
+      | none => false
+    verdict id mi s "-" ("O " ++ encPairs m ++ " " ++ encBools mocc)
+  | _, _ => s!"{id} bad-case"
+
+def step (line : String) : String :=
+  match splitCase line with
+  | none => "? bad-line"
+  | some (id, inp, obs) =>
+    match inp with
+    | "R" :: rest => stepR id rest obs
+    | _ => s!"{id} bad-case"
+
+end Rivaas.DriverC20
+
+def main : IO UInt32 := Rivaas.Proto.driverMain Rivaas.DriverC20.step
